@@ -50,7 +50,7 @@ BornFn(S) == [e \in S |-> "live"] @@ life
 GAInit ==
     /\ life = <<>> /\ pool = <<>> /\ loose = {} /\ owed = <<>>
     /\ op = NoOp /\ heap = <<>>
-    /\ cfg = [mode |-> "strict", ety |-> "tk", rec |-> FALSE]
+    /\ cfg = [mode |-> "strict", ety |-> "tk", rec |-> FALSE, cl |-> <<>>]
 
 (* f is a function  id -> scope  of elements the library becomes obliged to
    drop.  For element types without a destructor nothing is observable, so
@@ -363,12 +363,18 @@ CloneGuard(src) ==
        THEN src \in SeqRange(CloneSrcSeq) \ DOMAIN op.cmap      \* any order, each element once
        ELSE src = CloneSrcSeq[op.k + 1]                         \* element k, ascending (C08)
     /\ Live(src)
-CloneStep(src, new) ==
+\* cfg.cl[e]: how often element e has been the `&self' of Clone::clone.  The element itself counts too (nth, logged by
+\* its Clone impl; -1: this element kind does not count): Clone::clone must be called on the element the operand holds,
+\* not on a bitwise copy of it - the difference shows with interior mutability and with the second clone of the same value.
+ClCount(e) == IF e \in DOMAIN cfg.cl THEN cfg.cl[e] ELSE 0
+CloneStep(src, new, nth) ==
     /\ CloneGuard(src)
     /\ ~Known(new)
+    /\ nth = -1 \/ nth = ClCount(src)
     /\ life' = BornFn({new})
     /\ op' = [op EXCEPT !.k = @ + 1, !.out = Append(@, new), !.cmap = (src :> new) @@ @]
-    /\ UNCHANGED <<pool, loose, owed, heap, cfg>>
+    /\ cfg' = [cfg EXCEPT !.cl = (src :> ClCount(src) + 1) @@ @]
+    /\ UNCHANGED <<pool, loose, owed, heap>>
 ClonePanicStep(src) ==
     /\ CloneGuard(src)
     \* (clone_from: the clones made so far may already sit in the destination - element-wise replacement - or be
